@@ -81,9 +81,15 @@ func ruleLexIndentState(c *Ctx) []Obligation {
 	if rd == nil {
 		return []Obligation{undecided(R, con, c.Pos(q.Pos()), "no rune read at the loop head")}
 	}
+	isRead := func(v ssa.Value) bool {
+		call, ok := v.(*ssa.Call)
+		return ok && call.Call.StaticCallee() == m.next
+	}
+	// a line break of the source text: the rune read at the loop head, or the one read after a backslash (kept
+	// verbatim in a pattern), compared equal to '\n'
 	underNewline := func(b *ssa.BasicBlock) bool {
 		for _, g := range guardsAt(b) {
-			if bo, ok := g.Cond.(*ssa.BinOp); ok && bo.Op == token.EQL && g.Branch && bo.X == ssa.Value(rd) {
+			if bo, ok := g.Cond.(*ssa.BinOp); ok && bo.Op == token.EQL && g.Branch && isRead(bo.X) {
 				if k, okk := constInt(bo.Y); okk && k == '\n' {
 					return true
 				}
@@ -91,8 +97,55 @@ func ruleLexIndentState(c *Ctx) []Obligation {
 		}
 		return false
 	}
+	// notNewline: the guards (plus the condition of the edge from→to, if from ends in a branch) establish v != '\n'
+	notNewline := func(v ssa.Value, from, to *ssa.BasicBlock) bool {
+		gs := guardsAt(from)
+		if len(from.Instrs) > 0 && to != nil {
+			if ifi, ok := from.Instrs[len(from.Instrs)-1].(*ssa.If); ok && len(from.Succs) == 2 && from.Succs[0] != from.Succs[1] {
+				gs = append(gs, Guard{Cond: ifi.Cond, Branch: from.Succs[0] == to, If: ifi})
+			}
+		}
+		for _, g := range gs {
+			bo, ok := g.Cond.(*ssa.BinOp)
+			if !ok || bo.X != v {
+				continue
+			}
+			k, okk := constInt(bo.Y)
+			if !okk {
+				continue
+			}
+			switch {
+			case bo.Op == token.EQL && g.Branch && k != '\n', bo.Op == token.EQL && !g.Branch && k == '\n',
+				bo.Op == token.NEQ && g.Branch && k == '\n', bo.Op == token.NEQ && !g.Branch && k != '\n':
+				return true
+			}
+		}
+		return false
+	}
+	// appendedRune: te = append(_, []byte(string(r))...) → r
+	appendedRune := func(te ssa.Value) ssa.Value {
+		call, ok := te.(*ssa.Call)
+		if !ok || len(call.Call.Args) != 2 {
+			return nil
+		}
+		if b, okb := call.Call.Value.(*ssa.Builtin); !okb || b.Name() != "append" {
+			return nil
+		}
+		cv, ok := call.Call.Args[1].(*ssa.Convert)
+		if !ok {
+			return nil
+		}
+		cv2, ok := cv.X.(*ssa.Convert)
+		if !ok {
+			return nil
+		}
+		if bt, okb := cv2.X.Type().Underlying().(*types.Basic); okb && bt.Kind() == types.Int32 {
+			return cv2.X
+		}
+		return nil
+	}
 	var bad2 []string
-	n := 0
+	n, runes := 0, 0
 	for i := range flag.Edges {
 		pred := flag.Block().Preds[i]
 		if !flag.Block().Dominates(pred) {
@@ -116,10 +169,27 @@ func ruleLexIndentState(c *Ctx) []Obligation {
 			if k, ok := fe.(*ssa.Const); !ok || k.Value.String() != "true" {
 				bad2 = append(bad2, "text was appended but the flag was not set: later blanks on this line would still be stripped @ "+c.InstrPos(pred.Instrs[0]))
 			}
+			// what was appended with the flag set is not a line break of the source text (one produced by the
+			// escape \n is a constant here): otherwise the indentation of the next line would be kept
+			r := appendedRune(te)
+			switch rv := r.(type) {
+			case *ssa.Phi:
+				for j, e := range rv.Edges {
+					if isRead(e) && !notNewline(e, rv.Block().Preds[j], rv.Block()) {
+						bad2 = append(bad2, "a rune read from the text that may be a line break is appended with the flag set: the indentation of the next line is kept (backslash before a line break in a pattern) @ "+c.InstrPos(rv.Block().Preds[j].Instrs[len(rv.Block().Preds[j].Instrs)-1]))
+					}
+				}
+				runes++
+			case *ssa.Call:
+				if isRead(rv) && !notNewline(rv, pred, nil) {
+					bad2 = append(bad2, "a rune read from the text that may be a line break is appended with the flag set @ "+c.InstrPos(pred.Instrs[0]))
+				}
+				runes++
+			}
 		}
 	}
 	if len(bad2) == 0 && n >= 3 {
-		return []Obligation{ok(R, con, c.InstrPos(flag), fmt.Sprintf("%d back edges checked pairwise against the text accumulator", n))}
+		return []Obligation{ok(R, con, c.InstrPos(flag), fmt.Sprintf("%d back edges checked pairwise against the text accumulator; %d appended runes are known not to be a line break of the text", n, runes))}
 	}
 	if n < 3 {
 		return []Obligation{undecided(R, con, c.InstrPos(flag), fmt.Sprintf("only %d back edges", n))}
